@@ -1380,7 +1380,72 @@ func c05SpecialLinks(g *Gen, emit func(A, Bl []flatEntry, cls string)) {
 	}
 }
 
+// c05TmpNames: destinations (and sources) that already hold entries NAMED LIKE THE WRITER'S
+// TEMPORARIES — ".tmp." + a counter, over a dense range of small counters, in both widths (nine
+// digits, zero-padded, as nextSuffix formats them, and plain) — as regular files (longer than
+// what is about to be written), directories, symbolic links, in the same directory as regular
+// files that this synchronisation MODIFIES (the writer then creates a temporary entry next to
+// each and renames it over the path).  They are ordinary entries: unchanged ones stay, with
+// their bytes; nothing vanishes without a delete notification; the stored bytes of a modified
+// file are exactly the new bytes.  MUST RUN FIRST in a generator process: the names cover the
+// first temporaries of the process should they ever be handed out in sequence.
+func c05TmpNames(g *Gen, kind uint64) {
+	n := 0
+	const dense = 160
+	for variant := 0; variant < 5; variant++ {
+		for _, dir := range []string{"", "w/"} {
+			for rep := 0; rep < 3; rep++ {
+				var A, Bl []flatEntry
+				both := func(e flatEntry) {
+					A = append(A, flatEntry{e.St.CloneVT(), e.Content})
+					Bl = append(Bl, flatEntry{e.St.CloneVT(), e.Content})
+				}
+				if dir != "" {
+					both(flatEntry{&types.Stat{Path: "w", Mode: uint32(os.ModeDir | 0755), ModTime: 1700000000e9}, nil})
+				}
+				for i := 0; i < dense; i++ {
+					for _, name := range []string{fmt.Sprintf(".tmp.%09d", i), fmt.Sprintf(".tmp.%d", i)} {
+						if name == ".tmp.0" && i != 0 {
+							continue
+						}
+						p := dir + name
+						switch {
+						case variant == 3 && i%3 == 1:
+							both(flatEntry{&types.Stat{Path: p, Mode: uint32(os.ModeDir | 0700), ModTime: 1700000001e9}, nil})
+						case variant == 4 && i%3 == 2:
+							both(flatEntry{&types.Stat{Path: p, Mode: uint32(os.ModeSymlink | 0777), Linkname: "f0", ModTime: 1600000001e9}, nil})
+						default:
+							both(flatEntry{&types.Stat{Path: p, Mode: 0600, Uid: 3, ModTime: 1600000002e9}, []byte("stale temporary " + name + " with a long tail")})
+						}
+					}
+				}
+				// the files this synchronisation modifies (content and mtime, or only the mode), adds, deletes
+				for j := 0; j < 2+variant%2; j++ {
+					p := fmt.Sprintf("%sf%d", dir, j)
+					A = append(A, flatEntry{&types.Stat{Path: p, Mode: 0644, ModTime: 1600000003e9}, []byte("old content of " + p)})
+					nb := flatEntry{&types.Stat{Path: p, Mode: 0644, ModTime: 1600000004e9 + int64(rep)}, []byte("new")}
+					if variant == 2 && j == 0 {
+						nb = flatEntry{&types.Stat{Path: p, Mode: 0600, ModTime: 1600000003e9}, []byte("old content of " + p)}
+					}
+					Bl = append(Bl, nb)
+				}
+				if variant == 1 {
+					A = append(A, flatEntry{&types.Stat{Path: dir + "gone", Mode: 0644, ModTime: 1600000005e9}, []byte("x")})
+					Bl = append(Bl, flatEntry{&types.Stat{Path: dir + "new", Mode: 0644, ModTime: 1600000005e9}, []byte("y")})
+				}
+				sortEntries(A)
+				sortEntries(Bl)
+				if c05EmitCase(g, kind, 0, 0, uint64(rep%2), A, Bl, "directed-tmp-like-names-next-to-modified-files") {
+					n++
+				}
+			}
+		}
+	}
+	g.Note("directed_tmp_name_cases", n)
+}
+
 func genC05(g *Gen) {
+	c05TmpNames(g, 0x0501)
 	c05SpecialLinks(g, func(A, Bl []flatEntry, cls string) {
 		for _, mode := range []int{0, 1} {
 			c := cls
